@@ -23,3 +23,6 @@ Lemma process_global_caches_are_exactly :
   map st_name (filter (fun s => match lookup_state s state_audit with Some (SProcessCache _) => true | _ => false end) state_items)
   = ["_empty_constrained"%string].
 Proof. vm_compute. reflexivity. Qed.
+
+Lemma resolution_cache_key_keeps_what_determines_the_result : resolution_key_ok resolution_key_fields = true.
+Proof. vm_compute. reflexivity. Qed.
